@@ -95,6 +95,9 @@ pub struct ServerScn {
     /// Run for simulated years (deadlines beyond a single timer's span).
     #[serde(default)]
     pub long: bool,
+    /// ‰ of scheduling steps that poll a task that was not woken (legal for any future).
+    #[serde(default)]
+    pub spurious_permille: u32,
 }
 
 impl ServerScn {
@@ -166,6 +169,7 @@ fn gen_parked(rng: &mut Rng) -> ServerScn {
         preempt_permille: *rng.pick(&[0u32, 0, 60]),
         subscriber: 0,
         long: false,
+        spurious_permille: 0,
     }
 }
 
@@ -348,6 +352,7 @@ pub fn gen(rng: &mut Rng, focus: SFocus) -> ServerScn {
         preempt_permille: if subscriber != 0 || long { 0 } else { *rng.pick(&[0u32, 0, 60, 250]) },
         subscriber,
         long,
+        spurious_permille: if focus == SFocus::General && subscriber == 0 && rng.chance(120) { 100 } else { 0 },
     }
 }
 
@@ -430,7 +435,7 @@ pub fn log_handler_start(sim: &Sim, node: u8, id: u64, inc: u32, ctx: &context::
         node,
         id,
         inc,
-        deadline_ms: sim.ms_of(ctx.deadline),
+        deadline_ms: sim.ms_of_local(ctx.deadline),
         deadline_us: sim.micros_of(ctx.deadline) as i64,
         trace: u128::from(ctx.trace_context.trace_id),
         span: u64::from(ctx.trace_context.span_id),
@@ -461,7 +466,7 @@ impl Serve for ScriptedServe {
                     preempt("handler:step");
                 }
                 HStep::UntilDeadline(off) => {
-                    let target = sim.ms_of(ctx.deadline).saturating_add(*off);
+                    let target = sim.ms_of_local(ctx.deadline).saturating_add(*off);
                     let wait = (target - sim.now_ms()).max(0) as u64;
                     tokio::time::sleep(Duration::from_millis(wait)).await;
                     sim.log(EvKind::HandlerPoll { node: self.node, id: self.id, inc });
@@ -610,7 +615,7 @@ pub fn start_handler(
         node,
         id,
         tag,
-        deadline_ms: sim.ms_of(r.context.deadline),
+        deadline_ms: sim.ms_of_local(r.context.deadline),
         trace: u128::from(r.context.trace_context.trace_id),
         span: u64::from(r.context.trace_context.span_id),
         sampled: r.context.trace_context.sampling_decision == trace::SamplingDecision::Sampled,
@@ -704,7 +709,7 @@ pub struct ServerState {
 }
 
 pub fn run(scn: &ServerScn, tape: Tape, _logging: bool) -> RunOutput {
-    let knobs = Knobs { preempt_permille: scn.preempt_permille, ..Knobs::default() };
+    let knobs = Knobs { preempt_permille: scn.preempt_permille, spurious_permille: scn.spurious_permille, ..Knobs::default() };
     let horizon = horizon_ms(scn);
     let scn2 = scn.clone();
     let _sub = crate::subscribers::install(scn.subscriber);
